@@ -56,6 +56,15 @@ if __name__ == "__main__":
             m = json.load(open(p))
             done.add((m["file"], m["line"], m["col"], m["new"]))
     surv = [m for m in surv if (m["file"], m["line"], m["col"], m["new"]) not in done]
+    rec = os.path.join(os.path.dirname(os.path.dirname(os.path.abspath(__file__))), "seeded", "token_mutants_sweep.txt")
+    if os.path.exists(rec):          # mutants of earlier sweeps (recorded without the column: skip by file, line and replacement)
+        import re
+        old = set()
+        for l in open(rec):
+            mm = re.match(r"\d+ (\S+):(\d+) \S+ '([^']*)'->'([^']*)'", l)
+            if mm:
+                old.add((mm.group(1), int(mm.group(2)), mm.group(3), mm.group(4)))
+        surv = [m for m in surv if (m["file"], m["line"], m["old"], m["new"]) not in old]
     cap = int(os.environ.get("MUT_CAP", "6"))
     base = len(done)
     # stratify: at most cap per function
